@@ -346,7 +346,9 @@ class MergeTracks(Contract):
         if key is not None:
             probe = z3.Const('probe_msg', ek.D)
             kv = h.ctx.ip.call(key, [SMsg(probe, ek)], {})
-            out['sorted-by-time'] = V(kv) == ek.time(probe)
+            # the key must be the absolute time ALONE: with the (assumed) stable sort that is what keeps ties in
+            # track order and then in-track order; any further key component reorders simultaneous events
+            out['sorted-by-time'] = (not isinstance(kv, (tuple, list))) and V(kv) == ek.time(probe)
         out['deltas-of-the-sorted-list'] = tr[n + 1][1] == tr[n][2]
         out['end-of-track-fixed-last'] = tr[n + 2][1] == tr[n + 1][2]
         out['result-is-the-fixed-sequence'] = V(r) == tr[n + 2][2]
@@ -363,9 +365,13 @@ class MergeTracks(Contract):
             return dict(kind=kind, type=typ, time=time, pay=pay)
         E = lambda t: m(1, 'end_of_track', t, 0)
         N = lambda t, p=1: m(0, 'note_on', t, p)
-        pool = [[], [E(0)], [N(1), E(2)], [N(0, 2), N(5, 3), E(1), N(2, 4)], [E(7)], [N(3, 5), N(0, 6), N(3, 7)], [m(1, 'text', 3, 8), E(0), E(4)]]
+        T = lambda t, p: m(1, 'set_tempo', t, p)
+        pool = [[], [E(0)], [N(1), E(2)], [N(0, 2), N(5, 3), E(1), N(2, 4)], [E(7)], [N(3, 5), N(0, 6), N(3, 7)], [m(1, 'text', 3, 8), E(0), E(4)],
+                [N(1, 9), T(0, 600000), N(0, 10), T(5, 400000), E(0)], [T(1, 300000), N(0, 11), m(1, 'text', 0, 12), T(0, 700000)]]
         out = []
         import itertools
         for combo in itertools.product(pool, repeat=cfg['ntracks']):
             out.append({'track%d' % i: t for i, t in enumerate(combo)})
-        return out[:60]
+        # ties between different kinds of messages at one tick (same track and across tracks) come first
+        out.sort(key=lambda d: -sum(1 for t in d.values() for x in t if x['type'] == 'set_tempo'))
+        return out[:80]
